@@ -271,10 +271,39 @@ def r3(ctx: Context) -> None:
     ctx.add("R3", "ConcurrentInvocationGroup.results::each-result", bool(ok), cg.loc() if cg else "", "")
 
 
+def r4(ctx: Context) -> None:
+    ctx.rule("R4", "the sync invocation executes its body once whatever it returns: the cache-hit test of ConcurrentInvocation.result is a flag that is set wherever the cache is filled, never a test on the cached VALUE (a body returning None / 0 / '' would run again on every read, which the distributed mode never does)")
+    repo = ctx.repo
+    ci = repo.cls("ConcurrentInvocation")
+    f = ci.methods.get("result")
+    if f is None:
+        raise AnalysisError("anchor-vanished: ConcurrentInvocation.result")
+    hits = [n for n in walk_no_nested(f.node) if isinstance(n, ast.If) and n.body and isinstance(n.body[-1], ast.Return) and isinstance(n.body[-1].value, ast.Attribute) and isinstance(n.body[-1].value.value, ast.Name) and n.body[-1].value.value.id == "self"]
+    ctx.floor("R4", "cache-hit exits of the sync result", len(hits), 1)
+    for h in hits:
+        cache_attr = h.body[-1].value.attr
+        t = h.test
+        flag = t.attr if isinstance(t, ast.Attribute) and isinstance(t.value, ast.Name) and t.value.id == "self" else None
+        value_dependent = any(isinstance(x, ast.Attribute) and x.attr == cache_attr for x in ast.walk(t))
+        ok = flag is not None and flag != cache_attr and not value_dependent
+        detail = ""
+        if ok:
+            # the flag is set to True in every method that fills the cache, and nowhere reset to False except before a (re)execution
+            fillers = [m for m in ci.methods.values() if any(isinstance(a, ast.Assign) and any(isinstance(tg, ast.Attribute) and tg.attr == cache_attr and isinstance(tg.value, ast.Name) and tg.value.id == "self" for tg in a.targets) for a in walk_no_nested(m.node)) and m.name != "__init__"]
+            sets = lambda m: any(isinstance(a, ast.Assign) and isinstance(a.value, ast.Constant) and a.value.value is True and any(isinstance(tg, ast.Attribute) and tg.attr == flag for tg in a.targets) for a in walk_no_nested(m.node))  # noqa: E731
+            missing = [m.name for m in fillers if not sets(m)]
+            ok = bool(fillers) and not missing
+            detail = "" if ok else f"the cache is filled in {missing or 'no method'} without setting self.{flag}"
+        else:
+            detail = f"the cache-hit test `{ast.unparse(t)}` depends on the cached value: a task body that returns None (or another value the test treats as 'empty') is executed again on every read of .result / group results in sync mode, once in distributed mode"
+        ctx.add("R4", f"{f.qualname}::cache-hit-test-is-a-flag", ok, f.loc(h), detail)
+
+
 def run(ctx: Context) -> None:
     sites = sqlmini.sites(ctx.repo)
     r1_r2(ctx, sites)
     r3(ctx)
+    r4(ctx)
     ctx.exhaustive = True
     ctx.not_decided += [
         "equality of outcomes for generated task programs (behavioural: nested calls, groups, values)",
